@@ -102,7 +102,8 @@ pub enum Item {
     /// never discarded, never a breakpoint, "precedes a break".
     Solid(i64),
     /// `explicit` = `\kern` (a breakpoint when followed by glue, discardable); otherwise
-    /// a font or accent kern (not discardable, precedes a break).
+    /// a kern of any other subtype (font, accent, mu_glue): tex.web §837, §866, §868 and §879
+    /// only ever test `subtype(p)=explicit`, so these are not discardable and precede a break.
     Kern { width: i64, explicit: bool },
     Glue(GlueSpec),
     Penalty(i32),
@@ -460,6 +461,63 @@ pub fn classify(line: &Totals, line_width: i64) -> (i32, Fit) {
     }
 }
 
+/// Which arm of §108 / §852–§853 decides the badness of a line (coverage counters only; the
+/// value itself always comes from [`classify`]).
+pub mod branch {
+    /// shortfall > 0 and a non-zero fil/fill/filll total: b = 0
+    pub const INFINITE_STRETCH: u16 = 1;
+    /// 0 < shortfall <= 7230584sp (110pt), finite stretch s > 0: r = 297t/s
+    pub const STRETCH_SMALL: u16 = 2;
+    /// shortfall > 7230584sp and s >= 1663497sp (25.4pt): r = t/(s/297)
+    pub const STRETCH_LARGE_DIVIDE: u16 = 4;
+    /// shortfall > 7230584sp and 0 < s < 1663497sp: inf_bad without division (§852)
+    pub const STRETCH_LARGE_SHORTCUT: u16 = 8;
+    /// shortfall > 0, no infinite stretch, total finite stretch <= 0: inf_bad (§108 `s<=0`)
+    pub const STRETCH_NONPOSITIVE: u16 = 16;
+    /// shortfall = 0 (and a non-negative shrink total): b = 0
+    pub const EXACT: u16 = 32;
+    /// 0 < -shortfall <= shrink
+    pub const SHRINK: u16 = 64;
+    /// -shortfall > shrink
+    pub const OVERFULL: u16 = 128;
+    /// the line's total shrink is negative (then even an exact fit is overfull, §853)
+    pub const NEGATIVE_SHRINK_TOTAL: u16 = 256;
+    /// the line's total finite stretch is negative
+    pub const NEGATIVE_STRETCH_TOTAL: u16 = 512;
+}
+
+pub fn badness_branch(line: &Totals, line_width: i64) -> u16 {
+    let shortfall = line_width - line.width;
+    let mut m = 0;
+    if line.shrink < 0 {
+        m |= branch::NEGATIVE_SHRINK_TOTAL;
+    }
+    if line.stretch[0] < 0 {
+        m |= branch::NEGATIVE_STRETCH_TOTAL;
+    }
+    if shortfall > 0 {
+        let s = line.stretch[0];
+        m |= if line.infinitely_stretchable() {
+            branch::INFINITE_STRETCH
+        } else if s <= 0 {
+            branch::STRETCH_NONPOSITIVE
+        } else if shortfall <= 7_230_584 {
+            branch::STRETCH_SMALL
+        } else if s >= 1_663_497 {
+            branch::STRETCH_LARGE_DIVIDE
+        } else {
+            branch::STRETCH_LARGE_SHORTCUT
+        };
+    } else if -shortfall > line.shrink {
+        m |= branch::OVERFULL;
+    } else if shortfall == 0 {
+        m |= branch::EXACT;
+    } else {
+        m |= branch::SHRINK;
+    }
+    m
+}
+
 /// §859. `pi` is the break's penalty after §831, `at_end` = the final break of the paragraph.
 pub fn line_demerits(p: &Params, b: i32, pi: i32, prev_fit: Fit, fit: Fit, prev_hyphenated: bool, hyphenated: bool, at_end: bool) -> i64 {
     let mut d = p.line_penalty as i64 + b as i64;
@@ -546,6 +604,9 @@ pub struct Solution {
     /// algorithm has to represent for this looseness setting; TeX is only defined while
     /// this stays below `AWFUL_BAD`
     pub peak: i64,
+    /// union of [`badness_branch`] over every admissible (feasible) line the exhaustive DP
+    /// extended a state with
+    pub feasible_branches: u16,
 }
 
 #[derive(Clone, Copy, Debug, PartialEq, Eq)]
@@ -747,7 +808,7 @@ impl<'a> Pass<'a> {
         // What TeX has to represent: with looseness = 0 all line numbers beyond the last
         // special line share one class (§848 easy_line, §835).
         let peak = if self.params.looseness == 0 { self.dp(self.line_widths.len().saturating_sub(1)).peak } else { full.peak };
-        Solution { by_count, best_path, peak }
+        Solution { by_count, best_path, peak, feasible_branches: full.branches }
     }
 
     /// `cap`: line counts ≥ cap are merged into one class (usize::MAX = never).
@@ -758,6 +819,7 @@ impl<'a> Pass<'a> {
         let mut cells: Vec<Option<Cell>> = vec![None; (nb + 1) * lines_dim * 4];
         cells[idx(0, 0, Fit::Decent as usize, nb)] = Some(Cell { min: 0, max: 0, back: (0, 0) });
         let mut peak = 0i64;
+        let mut branches = 0u16;
         for node in 0..nb {
             let from = if node == 0 { None } else { Some(node - 1) };
             for l in 0..lines_dim {
@@ -777,6 +839,7 @@ impl<'a> Pass<'a> {
                     // merged classes all use the last width, so `l` gives the right width
                     let ev = self.line(from, to, l);
                     if self.admissible(from, to, &ev) {
+                        branches |= badness_branch(&ev.totals, ev.width);
                         let nl = (l + 1).min(cap).min(lines_dim - 1);
                         for f in 0..4 {
                             let Some(c) = here[f] else { continue };
@@ -804,7 +867,7 @@ impl<'a> Pass<'a> {
                 }
             }
         }
-        Table { cells, peak }
+        Table { cells, peak, branches }
     }
 
     /// The precondition of TeX's active-list pruning: for every line start and every line
@@ -847,6 +910,7 @@ struct Cell {
 struct Table {
     cells: Vec<Option<Cell>>,
     peak: i64,
+    branches: u16,
 }
 
 fn idx(node: usize, lines: usize, fit: usize, nb: usize) -> usize {
